@@ -12,7 +12,7 @@ CHECKS = {
  "C01": C("property-based differential testing against an independent reference encoder / strict validator + round-trip; enumerated number-width boundaries (proptest)",
           "Generated trees are encoded by the library and compared byte-for-byte with a reference encoder written from the README, validated by a strict reference decoder, decoded by both library decoders and re-encoded.",
           "Trusts the reference encoder/validator in harness/src/model.rs as the documented layout.", "5 C01"),
- "C02": C("property-based differential testing of the text parser against an independent reference parser (RFC 8259 + the named relaxations) over spelled documents, single-token corruptions, token soups and raw bytes (proptest)",
+ "C02": C("property-based differential testing of the text parser against an independent reference parser (RFC 8259 + the named relaxations) over spelled documents, single-token corruptions, token soups and raw bytes (proptest); thorough tier adds a coverage-guided libFuzzer campaign (cargo-fuzz target c02_text) with the same oracle",
           "Spelled documents carry their meaning by construction; corrupted and arbitrary inputs are judged accept-iff-reference-accepts with equal values, never a panic.",
           "Trusts harness/src/textref.rs as the documented language and Rust std's f64 parser as correctly rounded.", "5 C02"),
  "C03": C("property-based round-trip / two independent strict acceptors (reference parser, serde_json) on both renderings; metamorphic pretty-vs-compact relation; code-point sweep (proptest)",
@@ -28,15 +28,15 @@ CHECKS = {
           "Each editor's appended bytes are compared with enc(tree edit) and its Result with the documented error.",
           "Trusts treefn.rs as the meaning of each edit.", "5 C06"),
  "C07": C("stateful model-based property testing: generated operation sequences interpreted against the library and a tree model, invariant after every step (proptest, vec(op)+interpreter)",
-          "Programs of 1-12 (40) operations over a pool of documents; after every step every produced document must be canonical JSONB and byte-equal to the encoding of the model result.",
+          "Programs of 1-12 (40) operations over a pool of documents (editors, extractors, builders incl. 40-pair objects with repeated keys, set functions with a text-form second list, path selections appended to buffers shared along the chain, a rejected call in between); after every step every produced document must be canonical JSONB and byte-equal to the encoding of the model result.",
           "Trusts treefn.rs / pathmodel.rs for each step's result and model.rs's strict validator for canonicity.", "5 C07"),
  "C08": C("property-based differential testing of JSONPath evaluation against a three-valued model evaluator on (document, path) pairs generated together (proptest)",
-          "All-mode results split by offsets are compared item by item with a model evaluator over the tree; every entry point must return Ok or Err, never panic.",
+          "All-mode results split by offsets are compared item by item with a model evaluator over the tree; every selection is repeated into buffers holding an earlier result; every entry point must return Ok or Err, never panic, also for every sequence of up to three path elements built from the public AST types (enumerated). The thorough tier adds a coverage-guided libFuzzer campaign (target c08_eval) with the same oracle.",
           "Trusts pathmodel.rs as the documented meaning; cross-kind ordering comparisons are treated as unspecified.", "5 C08"),
- "C09": C("grammar-based property testing of the JSONPath parser: abstract paths printed in every spelling variant must parse to the intended AST; print/parse round trip; must-reject inputs by construction; token soups and raw bytes for panic-freedom (proptest)",
+ "C09": C("grammar-based property testing of the JSONPath parser: abstract paths printed in every spelling variant must parse to the intended AST; print/parse round trip; must-reject inputs by construction; token soups and raw bytes for panic-freedom (proptest); thorough tier adds a coverage-guided libFuzzer campaign (cargo-fuzz target c09_path) with the same oracle",
           "Generated ASTs are rendered with random legal spacing/case/quoting and compared structurally (exact number classification) with the parse; invalid-by-construction inputs must be rejected.",
           "Trusts the printer in pathmodel.rs to emit only documented forms.", "5 C09"),
- "C10": C("fault-injection fuzzing of valid encodings (fault sequences, all truncations and all single-bit flips of each generated encoding) and raw bytes with a UTF-8 / no-panic / prefix-rejection oracle; differential text fallback (proptest + enumeration)",
+ "C10": C("fault-injection fuzzing of valid encodings (fault sequences, all truncations and all single-bit flips of each generated encoding) and raw bytes with a UTF-8 / no-panic / prefix-rejection oracle; differential text fallback (proptest + enumeration); thorough tier adds a coverage-guided libFuzzer campaign (cargo-fuzz target c10_bytes) with the same oracle",
           "Valid encodings are corrupted by generated fault sequences; for each small encoding every truncation offset and every single-bit flip is enumerated; JSON texts must fall back to the text parser's value.",
           "Allocation driven by corrupted counts is not judged.", "5 C10"),
  "C11": C("metamorphic property testing: every document-taking function called with all 2^k text/binary assignments and compared with the all-binary call (proptest)",
@@ -49,12 +49,12 @@ CHECKS = {
           "Pairs built from a small element pool (heavy duplication, re-typed numbers, container elements) are judged against a list model with byte identity.",
           "Trusts treefn.rs list model.", "5 C13"),
  "C14": C("property-based differential testing of comparable-key byte order against the model comparator, with known classes tolerated by exact structural signature (proptest)",
-          "key(a).cmp(key(b)) is compared with the model comparator on derived pairs; disagreements are classified by the shape of the first difference.",
-          "Same oracle as C04; two known classes (F13, F14a) are tolerated and counted.", "5 C14"),
+          "key(a).cmp(key(b)) is compared with the library's compare (and both with the model comparator) on derived pairs, sibling pairs and numeric neighbours; the key of a JSON text must be the key of the document it denotes; a disagreement is tolerated as a known finding only when compare is right, both keys are byte-for-byte the documented key format and the first difference has the listed shape.",
+          "Same order oracle as C04; cmpmodel.rs ref_key is the documented key format; two known classes (F13, F14a) are tolerated and counted.", "5 C14"),
  "C15": C("relational (metamorphic) property testing across the four selection modes, the convenience functions, existence and predicates (proptest)",
           "Purely relational checks on the library's own answers across modes, from empty and pre-filled buffers.",
           "Needs only the strict validator.", "5 C15"),
- "C16": C("grammar-based property testing of the key-path parser: printed element lists must parse to the intended elements; print/parse round trip; must-reject inputs; raw bytes for panic-freedom (proptest)",
+ "C16": C("grammar-based property testing of the key-path parser: printed element lists must parse to the intended elements; print/parse round trip; must-reject inputs; raw bytes for panic-freedom (proptest); thorough tier adds a coverage-guided libFuzzer campaign (cargo-fuzz target c16_keypath) with the same oracle",
           "Element lists rendered with every spacing variant are compared with the parse; invalid-by-construction inputs must be rejected.",
           "Trusts the printer in c16.rs.", "5 C16"),
  "C17": C("metamorphic property testing of every buffer-writing function over generated prior buffer contents and batches of calls (proptest)",
@@ -64,10 +64,10 @@ CHECKS = {
           "The thorough tier enumerates all 2^32 i32, u32 and f32-widened patterns through encode/decode/views; 64-bit values, malformed byte strings and order triples are sampled with boundary-biased generators.",
           "Trusts Rust's i128 arithmetic and f64 primitives.", "5 C18"),
  "C19": C("property-based structural comparison of the serde_json conversions with the tree and with an independent strict parse of an independent rendering; inverse round trip (proptest)",
-          "to_serde_json / From conversions are compared structurally with exact number classification; conversions back must give the original.",
+          "to_serde_json / From conversions are compared structurally with exact number classification, with the strict reference parse of an independent rendering and of the library's own rendering; conversions back must give the original.",
           "Trusts serde_json's Value accessors.", "5 C19"),
  "C20": C("child-process probing of every recursive and iterative operation over a doubling depth schedule (fault observed as process death), plus exhaustive enumeration of extreme index arguments against an i64 model (enumeration + differential)",
-          "Each (operation, depth) probe runs in its own child process with an explicit stack; signal deaths and panics are failures classified against per-operation known findings; extreme i32/usize arguments are enumerated on arrays of length 0-5.",
+          "Each (operation, depth) probe runs in its own child process with an explicit stack; signal deaths and panics are failures classified against per-operation known findings; extreme i32/usize arguments are enumerated on arrays of length 0-5, and every numeral at the ends of the i32/u32/i64/u64 ranges is placed in every index, offset and literal position of path and key-path texts.",
           "An 8 MiB thread stack stands for the default main-thread stack; depths are explored on a schedule up to 2^19, not proved.", "5 C20"),
 }
 NOT_YET = {}
@@ -104,6 +104,7 @@ m = {
    "add_only": True,
  },
  "engines": [
+   {"name": "libfuzzer", "path": "/verif/fuzz", "serves_properties": ["C02", "C08", "C09", "C10", "C16"], "kind_free_text": "cargo-fuzz 0.13 / libfuzzer-sys targets linking the same oracles; run by the vcheck parent in the thorough tier (16 processes x VERIF_FUZZ_SECS), artifacts re-judged through vcheck replay before they are reported"},
    {"name": "vcheck", "path": "/verif/harness", "serves_properties": sorted(CHECKS), "kind_free_text": "proptest 1.11 driven from a binary (fixed seeds, shrinking, model oracles), exhaustive enumerators for finite sub-domains, 16 worker processes; replay of saved cases without proptest"},
  ],
  "checks": checks,
